@@ -709,7 +709,7 @@ def run(tier, seed):
     drv = common.build_harness("c15")
     orc = common.build_oracle("pos", ["pos_model"])
     rng = random.Random(seed)
-    n_docs, n_trunc = (1500, 25) if tier == "quick" else (40000, 400)
+    n_docs, n_trunc = (1500, 25) if tier == "quick" else (25000, 300)
     if not proved:
         n_docs, n_trunc = n_docs * 3, n_trunc * 3
     findings = load_findings()
@@ -788,7 +788,7 @@ def run(tier, seed):
 
     # 2b. convert_pest_error at every offset (exhaustive over the character boundaries of each chosen text)
     short = [c[1] for c in cases if len(c[1].encode()) <= 120]
-    sweep_texts = [c[1] for c in cases[:len(SPECIAL)]] + rng.sample(short, min(len(short), 600 if tier == "quick" else 12000))
+    sweep_texts = [c[1] for c in cases[:len(SPECIAL)]] + rng.sample(short, min(len(short), 600 if tier == "quick" else 8000))
     sweep_n, sweep_problems, sweep_hist = sweep_check(drv, orc, sweep_texts, repaired)
     for t, desc in sweep_problems[:50]:
         clause_hist["sweep"] = clause_hist.get("sweep", 0) + 1
